@@ -44,10 +44,16 @@ LEVEL_TEXT = (
     "skip_path_purges, closing_ignores_unselected_records + pass_ignores_unselected_records (the pass after which every SELECTED "
     "handler has finished closes the cycle and purges every record whatever else the object carries, e.g. the unfinished record, same "
     "purpose, of a handler de-selected while retrying — the states of seed C03d, instance deselected_unfinished_instance; final_state "
-    "and converges have no hypothesis excluding them), blind_quiescent, free_quiescent. PARTIAL, each with the exact guard in its statement and a proved witness "
-    "that the guard is needed, replayed on the real code through the corpus: final_state / converges(_finitely_failing) need "
-    "`prematch` — blind_witness (OPEN C03-F2) — and `marked = false` — for a marked object held only by a foreign finalizer "
-    "free_witness (OPEN C03-N4); completed_against_final_partial under 'the handler has not finished yet when the final state "
+    "and converges have no hypothesis excluding them). final_state / converges(_finitely_failing) are now UNGUARDED as to WHICH object: "
+    "for every object that still exists at quiescence — seen by the framework or blind (no handler's filters accept it), in deletion "
+    "(held by a foreign finalizer only) or not — no owned progress record remains and a further event causes no write; 'last-handled = "
+    "essence' is stated for the objects the property speaks of (the framework sees it, it is not in deletion: for a blind or FREE "
+    "object no handler is selected and the last-handled state is left alone BY DESIGN — 423b86f's message — so that the changes made "
+    "meanwhile arrive as ONE accumulated update; corpus blind_then_matching_again). blind_purges / free_purges: the turn without "
+    "handlers purges the leftover records PRESENT (one PATCH + its echo, else nothing). The former guards' witnesses are kept as "
+    "regressions of the OLD turn `loopStepOld`: blind_witness (C03-F2, repaired by 423b86f), free_witness (C03-N4, repaired by 40d09eb). "
+    "PARTIAL, each with the exact guard in its statement and a proved witness "
+    "that the guard is needed, replayed on the real code through the corpus: completed_against_final_partial under 'the handler has not finished yet when the final state "
     "arrives' — absorbed_change_witness (OPEN C03-F4); shared_id_witness: one id registered for update and delete, the finished "
     "update record is taken for the deletion handler's (OPEN C03-N3; the model mirrors the code, `all_selected_completed` is stated "
     "per ID, so only the oracle, which looks at the CALLS of the deletion handler, sees it); terminates_stable_partial is "
@@ -56,32 +62,41 @@ LEVEL_TEXT = (
     "deletion handler whose filter reads the framework's own finalizer makes the loop add and remove it for ever (replayed on the "
     "real operator turn by turn, corpus G1; a misuse, not a finding). "
     "Cycles that START with a carried patch (`memory.remaining_patch`; how it gets there is C08's transport, not modelled) have "
-    "their own turn `loopStepC`: every theorem above is about cycles without one (carried_none_partial); a carried patch that "
-    "still changes the object re-triggers the cycle (carried_ops_leaves_event); one that has become a no-op swallows the cycle: "
-    "carried_noop_witness = the negation of convergence, carried_noop_blocks_release_witness = a deletion that is never released "
-    "(OPEN C03-N2, two corpus witnesses), both tied on the real operator's cycle. "
+    "their own turn `loopStepC`: without one it is the ordinary turn (carried_none); with one the handlers (and a release) are "
+    "skipped, and either the patch still changes the object and its echo re-triggers the cycle (carried_ops_leaves_event), or it has "
+    "become a no-op: nothing is sent for it, but the turn returns a zero delay, the object is touched and the touch's echo is pending "
+    "(carried_noop_comes_back: 608a57d as reworked by 02af7ce — the head block of 608a57d, which forgot such a patch "
+    "before the cycle, is gone); carried_converges: FULL convergence whatever patch the first cycle starts with. The former negation "
+    "is kept as a regression of the OLD turn `loopStepCOld`: carried_noop_witness, carried_noop_blocks_release_witness (C03-N2, two "
+    "corpus witnesses), all tied on the real operator's cycles. "
     "Cycles held back by C07's consistency barrier (the worker still awaits the echo of its own last write) have the turn "
-    "`loopStepI`: with no patch accumulated it is the same turn taken at the deadline (inconsistent_empty_partial); with one, the "
-    "wait AND the handlers are skipped and a patch that changes nothing brings no event: inconsistent_nonempty_witness (OPEN "
-    "C03-N6, found by the thorough generator; two corpus witnesses, tied on the real operator's cycle). "
-    "Repaired in /repo and kept as regressions: C03-F1 (2ae938f), C03-F3 (d1b2dc4), C03-F5 (1c8f3dd, finalizer functions only — "
-    "the rest is C03-N2), C03-F7 (7224f57), C03-N1 "
-    "(b7bf39c, sleeping_handler_woken_instance), 5dff3c1 (lost echo + constant on.event result). C03-F6 (name-addressed patches "
+    "`loopStepI`: with no patch accumulated it is the same turn taken at the deadline (inconsistent_empty); with one, the wait AND the "
+    "handlers are skipped but — since 30557a0 — the remaining waiting time comes back as a delay: `apply` sleeps it and touches the "
+    "object (inconsistent_nonempty_revisited: an event is pending again, not before the deadline, records and last-handled state as "
+    "they were); inconsistent_converges: FULL convergence whatever the view of the first turn. The former negation is kept as a "
+    "regression of the OLD turn `loopStepIOld`: inconsistent_nonempty_witness (C03-N6, two corpus witnesses, tied on the real "
+    "operator's cycles; repaired by 30557a0). "
+    "Repaired in /repo and kept as regressions: C03-F1 (2ae938f), C03-F2 (423b86f), C03-F3 (d1b2dc4), C03-F5 (1c8f3dd, finalizer "
+    "functions only — the rest was C03-N2, 608a57d + 02af7ce), C03-F7 (7224f57), C03-N1 "
+    "(b7bf39c, sleeping_handler_woken_instance), C03-N4 (40d09eb), C03-N6 (30557a0), 5dff3c1 (lost echo + constant on.event result). C03-F6 (name-addressed patches "
     "after delete+recreate) lies in C08's part and is found by the oracle only; C03-N5 (a graceful stop that never finished: an "
     "observation on C19/C20's ground found by these histories, = C20-F8) is repaired by ab6fb15 and kept as a regression. 'A further event causes no write' reads "
     "`writes + cp env`: with a constant patch one request per event is sent, changing nothing. ORACLE/TIE ONLY: changes made while "
     "down are seen after the start (`restart` sets `pending` by definition; tie), old/new/diff of the accumulated change, delivery "
     "timings (one `pending` flag; stale/suppressed cycles are C07's). The model is hand-written and tied per turn to "
-    "whole-operator simulations incl. finalizer turns, deletion tails, foreign finalizers, patch functions without operations; "
-    "daemons (C09), the consistency wait (C07), patch conflicts and carried patches (C08) are outside this model.")
+    "whole-operator simulations incl. finalizer turns, deletion tails, foreign finalizers, blind and FREE purges, patch functions "
+    "without operations, held-back cycles that come back after the deadline; "
+    "daemons (C09), whether the consistency barrier is up (C07), patch conflicts and how a patch comes to be carried (C08) are outside this model.")
 THEOREMS = [("Kopf.Props.C03", "Kopf.C03." + n) for n in [
     "terminates_or_fails", "terminates", "terminates_finitely_failing", "final_state", "final_state_deleted",
     "converges", "converges_finitely_failing", "deletion_converges", "deletion_converges_finitely_failing",
     "all_selected_completed", "completed_against_final_partial", "absorbed_change_witness",
     "open_pass_leaves_event", "sleeping_handler_woken_instance", "invoked_once_after_last_change", "restart_safe",
-    "accumulated_change", "blind_quiescent", "blind_witness", "free_quiescent", "free_witness", "shared_id_witness",
-    "carried_none_partial", "carried_ops_leaves_event", "carried_noop_witness", "carried_noop_blocks_release_witness",
-    "inconsistent_empty_partial", "inconsistent_nonempty_witness", "skip_path_purges", "closing_ignores_unselected_records",
+    "accumulated_change", "blind_purges", "blind_witness", "free_purges", "free_witness", "shared_id_witness",
+    "carried_none", "carried_noop_comes_back", "carried_ops_leaves_event", "carried_converges",
+    "carried_noop_witness", "carried_noop_blocks_release_witness",
+    "inconsistent_empty", "inconsistent_nonempty_revisited", "inconsistent_converges", "inconsistent_nonempty_witness",
+    "skip_path_purges", "closing_ignores_unselected_records",
     "pass_ignores_unselected_records", "deselected_unfinished_instance", "terminates_stable_partial", "unstable_filters_witness", "filtersStable_of_essence"]]
 RULE = ("seeded histories of one object: 1-4 change handlers (create/update/resume/delete, label filters, retries/timeout/backoff/"
         "errors, scripts with finitely many temporary/arbitrary/permanent failures then ok, handlers that take time (8 %), ONE id "
@@ -119,13 +134,15 @@ ASSUMPTIONS = ["GUARD FiltersStable: selection / prematch / finalizer requiremen
                "(terminates_or_fails) and for AllFinal (terminates)",
                "an object NO handler matches (any more) is outside the operator's scope: the oracle does not require its "
                "last-handled annotation to equal the essence (an outdated one is what makes the changes made meanwhile arrive "
-               "as ONE accumulated update when it matches again); leftover progress RECORDS on it are the finding C03-F2. "
-               "Likewise for an object in deletion that only others hold (C03-N4)",
+               "as ONE accumulated update when it matches again); leftover progress RECORDS on it are a violation (formerly the "
+               "finding C03-F2, repaired by 423b86f). Likewise for an object in deletion that only others hold (formerly C03-N4, "
+               "repaired by 40d09eb)",
                "progress records live in annotations (the default storage); StatusProgressStorage / SmartProgressStorage and "
                "sub-handlers, when= filters, field= filters with value=/old=/new= are not generated (C16's, C13's, C15's subjects)",
                "`memory.remaining_patch` (transformation functions carried over after a rejected JSON-patch): how a patch comes to "
-               "be carried is C08's transport and not in the model; what a cycle that STARTS with one does is (`loopStepC`: handlers "
-               "skipped; re-sent, or nothing to send = OPEN finding C03-N2) and is tied when it is the tail's first cycle and no "
+               "be carried is C08's transport and not in the model; what a cycle that STARTS with one does is (`loopStepC`: the "
+               "handlers are skipped; it is re-sent, or — a no-op — nothing is sent and the object is touched after a zero delay "
+               "(608a57d + 02af7ce, formerly C03-N2)) and is tied when it is the tail's first cycle and no "
                "other function is sent in the tail; every other tail in which a function is sent or carried is skipped by the tie "
                "(`user-patch-fns`, counted); the oracle judges all of them",
                "`Env.subs` lists every sub-handler id occurring in stored or returned subrefs (else `writes` may miss a "
@@ -145,9 +162,16 @@ ASSUMPTIONS = ["GUARD FiltersStable: selection / prematch / finalizer requiremen
                "handlers return no result (no status.<handler> write besides the progress record), except on.event constants",
                "randomized/shuffled lifecycles are not modelled",
                "whether C07's consistency barrier is up is not modelled (`consistent = true`); a held-back cycle is tied only in the "
-               "shape of `loopStepI … true` (the object's last cycle, deadline ahead, non-empty patch, nothing came of it = C03-N6); "
+               "shape of `loopStepI … true` (deadline ahead, non-empty patch that changes nothing: the wait and the handlers are "
+               "skipped, `apply` sleeps the remaining waiting time and touches the object (30557a0) — a cycle of that shape of which "
+               "nothing came, the object's last, is C03-N6 and breaks the tie); "
                "the generator reaches it through a foreign edit + stream cut (410) before the echo of an own write is delivered, "
                "with an on.event handler that returns a constant or appends an idempotent function",
+               "the finalizer-removing turn on a BLIND object that still carries progress records sends the purge of the leftovers "
+               "(423b86f) with it: merge-patch + JSON-patch, two requests with two echoes; the model's turn (`remState`) is atomic over "
+               "both; NOT modelled: the echo of the merge half is processed as a cycle of its own (blind and still blocked on its "
+               "view) whose finalizer JSON-patch is rejected with 422 — one wasted request, then silence; such tails are skipped by "
+               "the tie (`finalizer-turn+purge`, counted; corpus blind_blocked_leftovers_two_requests), the oracle judges them",
                "tail cycles the model has no turn for are dropped and COUNTED (`tail_leading_cycles_dropped`): cycles held back by "
                "the consistency barrier (C07), cycles on a view older than the server's state (echoes still in flight when the "
                "environment fell silent), a finalizer edit that also cleans the touch-dummy (two requests, two echoes), the echo "
@@ -783,6 +807,7 @@ def abstract_tail(sc: dict, tr: dict, cap: int) -> tuple[list | None, Any]:
     if f.cross_uid:
         return None, "cross-uid-write"      # not silent: a write of the deleted predecessor's cycle landed on this object
     foreign = any(x != FINALIZER for x in (f.last_body["metadata"].get("finalizers") or []))
+    blind = not any(py_matches(h, f.last_body) for h in _changing(sc))
     # the tail: the last incarnation's cycles on bodies that carry the last external write
     cycles = [c for c in tr["cycles"] if c["uid"] == f.uid and c["inc"] == f.last_inc and c["t0"] >= f.t_for
               and int(c["rv"]) >= f.rv_for and c["event_type"] != "DELETED"]
@@ -811,32 +836,55 @@ def abstract_tail(sc: dict, tr: dict, cap: int) -> tuple[list | None, Any]:
                    if v["t"] <= c["t0"] and v["body"]["metadata"].get("uid") == f.uid and v["event"] != "DELETED"), default=0)
         return int(c["rv"]) < cur
 
+    def held_nonempty(c: dict) -> bool:
+        """ONE shape of a held-back cycle the model has a turn for (`loopStepI … true`): the barrier is up with the deadline
+        ahead, a patch was accumulated before the state-dependent part, so the wait and the handlers were skipped; the patch
+        changed nothing, and either `apply` slept the remaining waiting time and touched the object (since /repo 30557a0:
+        the touch's echo is the next cycle), or nothing at all came of it and it is the object's last cycle (before
+        30557a0: C03-N6 — the model's turn then differs)."""
+        apl = c.get("apply") or {}
+        ctl = c.get("consistency_time")
+        if not (c.get("pcc") is None and fin_turn(c) is None and ctl is not None and c.get("cause") is not None
+                and float(ctl) > float(c.get("loop_t0", ctl)) and (apl.get("patch") or apl.get("fns"))
+                and not (c.get("mem_before") or {}).get("remaining_patch") and not apl.get("remaining_fns")):
+            return False
+        mine = [r for r in f.patches if r.get("cycle_i") == c["i"] and r.get("who") == f"op#{f.last_inc}"]
+        touched = any(isinstance(r.get("payload"), dict)
+                      and ((r["payload"].get("metadata") or {}).get("annotations") or {}).get(OWN_PREFIX + "touch-dummy")
+                      for r in mine)
+        k = next(i for i, x in enumerate(cycles) if x is c)
+        t_next = cycles[k + 1]["t0"] if k + 1 < len(cycles) else float("inf")
+        later = [v for v in f.hist if c["t0"] <= float(v["t"]) < t_next and v["body"]["metadata"].get("uid") == f.uid]
+        if touched:      # nothing but the touch changed the object before the next cycle
+            return len(later) == 1 and all(isinstance(r.get("response"), int) and r["response"] < 300 for r in mine)
+        return c is cycles[-1] and not later and f.final is not None
+
+    def purge_too(c: dict) -> bool:
+        """A finalizer-removing turn on a blind object that still carries progress records: the purge of the leftovers
+        (/repo 423b86f) goes out with it — merge-patch + JSON-patch, two requests, two echoes; the echo of the merge half is
+        processed as a cycle of its own whose finalizer JSON-patch is rejected (422): C06/C08's subject."""
+        return blind and fin_turn(c) == "remove-finalizer" and \
+            any(own_record(c["body"], h) is not None for h in _all_ids(sc))
+
     dropped_dummy = False
     dropped: dict[str, int] = {}
-    last_dropped = None
+    inconsistent = None
     while cycles and (suppressed(cycles[0]) or stale(cycles[0])
                       or (fin_turn(cycles[0]) and (dummy(cycles[0]) or dropped_dummy))):
+        if suppressed(cycles[0]) and not stale(cycles[0]) and not blind and held_nonempty(cycles[0]):
+            cl = cycles[0]
+            inconsistent = {"nonEmpty": True, "deadline": round(cl["t0"] * 64)
+                            + round((float(cl["consistency_time"]) - float(cl["loop_t0"])) * 64)}
+            break
         why = "suppressed" if suppressed(cycles[0]) else ("stale-view" if stale(cycles[0]) else "finalizer-turn+dummy")
         dropped[why] = dropped.get(why, 0) + 1
         dropped_dummy = dropped_dummy or bool(fin_turn(cycles[0]) and not stale(cycles[0]))
-        last_dropped = (cycles.pop(0), why)
-    # ONE shape of a held-back cycle the model has a turn for (`loopStepI`): it is the object's LAST cycle, the barrier is up
-    # with the deadline ahead, a patch was accumulated before the state-dependent part, so the wait and the handlers were
-    # skipped — and nothing came of it (the open finding C03-N6 when work is outstanding)
-    inconsistent = None
-    if not cycles and last_dropped is not None and last_dropped[1] == "suppressed" and f.final is not None:
-        cl = last_dropped[0]
-        apl = cl.get("apply") or {}
-        ctl = cl.get("consistency_time")
-        if ctl is not None and cl.get("cause") is not None and float(ctl) > float(cl.get("loop_t0", ctl)) \
-                and (apl.get("patch") or apl.get("fns")) and not (cl.get("mem_before") or {}).get("remaining_patch") \
-                and not any(float(v["t"]) >= cl["t0"] and v["body"]["metadata"].get("uid") == f.uid for v in f.hist):
-            cycles = [cl]
-            dropped["suppressed"] -= 1
-            inconsistent = {"nonEmpty": True, "deadline": round(cl["t0"] * 64) + round((float(ctl) - float(cl["loop_t0"])) * 64)}
+        cycles.pop(0)
+    if any(purge_too(c) for c in cycles):
+        return None, "finalizer-turn+purge"
     # inside the tail: the echo of the merge half of a two-request write (e.g. the release: purge + finalizer removal),
     # held back by the barrier (C07) — the model's turn is atomic over both requests
-    for c in [c for c in cycles[1:-1] if suppressed(c)]:
+    for c in [c for c in cycles[1:-1] if suppressed(c) and not (inconsistent and c is cycles[0])]:
         if const_patch:
             # with a constant patch in every cycle the held-back cycle is not silent: it sends that patch (one more
             # request, one more round trip before the next pass) — the model's atomic turn has no place for it
@@ -864,16 +912,35 @@ def abstract_tail(sc: dict, tr: dict, cap: int) -> tuple[list | None, Any]:
         # a handler's function inside the tail is C08's transport — except for ONE shape the model has a turn for
         # (`loopStepC`): the tail's FIRST cycle starts with a carried patch (how it got there is not modelled), skips the
         # handlers for that reason, and re-sends the functions (`ops`: one JSON-patch that is accepted) or has nothing to
-        # send (`noop`: the open finding C03-N2 when a change or a release is outstanding); no function anywhere else in
+        # send (`noop`: before /repo 608a57d that was the finding C03-N2 — nothing came of the cycle; since /repo 02af7ce (the rework of
+        # 608a57d) the cycle returns a zero delay and `apply` touches the object); no function anywhere else in
         # the tail (other than the idle ones of on.event handlers, which are the same as no patch)
         ap0 = c0.get("apply") or {}
         sent = [r for r in f.patches if r.get("cycle_i") == c0["i"] and r.get("who") == f"op#{f.last_inc}"]
         has_carry = bool((c0.get("mem_before") or {}).get("remaining_patch"))
-        later_fns = any("note_seen" in ((c.get("apply") or {}).get("fns") or []) for c in cycles[1:])
+        def fn_effect(c: dict) -> bool:
+            """A handler's function of this cycle yielded operations (a JSON-patch on the status went out) or was left over
+            after a rejection: C08's transport. One that yields no operation sends no request: the same as no patch (b7bf39c)."""
+            return bool((c.get("apply") or {}).get("remaining_fns")) or any(
+                r.get("cycle_i") == c["i"] and "json-patch" in str(r.get("ctype"))
+                and any(isinstance(op, dict) and str(op.get("path", "")).startswith("/status") for op in (r.get("payload") or []))
+                for r in f.patches)
+        later_fns = any("note_seen" in ((c.get("apply") or {}).get("fns") or []) and (not has_carry or fn_effect(c))
+                        for c in cycles[1:])
+        fn_ops0 = any("json-patch" in str(r.get("ctype")) and any(isinstance(op, dict) and str(op.get("path", "")).startswith("/status")
+                                                                   for op in (r.get("payload") or [])) for r in sent)
         if has_carry and c0.get("pcc") is None and fin_turn(c0) is None and not ap0.get("remaining_fns") \
                 and all(isinstance(r.get("response"), int) and r["response"] < 300 for r in sent) \
                 and (idle_vals is not None or not later_fns):
+            # `noop`: nothing is sent for the carried patch; the touch that follows (/repo 02af7ce) is among `sent`
+            # (before 608a57d nothing followed at all — C03-N2: the model's turn then differs)
             carried = "ops" if any("json-patch" in str(r.get("ctype")) for r in sent) else "noop"
+        elif has_carry and c0.get("pcc") is not None and not fn_ops0 and not ap0.get("remaining_fns") \
+                and all(isinstance(r.get("response"), int) and r["response"] < 300 for r in sent) \
+                and (idle_vals is not None or not later_fns):
+            # the behaviour of /repo 608a57d BEFORE its rework 02af7ce: the carried functions were forgotten at the head of the cycle
+            # and the handlers ran in it — the model's turn (handlers skipped, touch) then differs
+            carried = "noop"
         elif has_carry or (idle_vals is None and (later_fns or "note_seen" in (ap0.get("fns") or []))):
             return None, "user-patch-fns"
     if gone:
@@ -890,7 +957,6 @@ def abstract_tail(sc: dict, tr: dict, cap: int) -> tuple[list | None, Any]:
     owned = [d["id"] for d in decls]
     who = f"op#{f.last_inc}"      # the session identity of the incarnation that lives through the tail
     ends = [c["t0"] for c in cycles[1:]] + [t_trail]
-    blind = not any(py_matches(h, f.last_body) for h in _changing(sc))
     change_req = any(h["kind"] == "delete" and not h.get("opts", {}).get("optional") and py_matches(h, f.last_body)
                      for h in _changing(sc))
     passes = []
@@ -924,6 +990,12 @@ def abstract_tail(sc: dict, tr: dict, cap: int) -> tuple[list | None, Any]:
         })
     n = len(passes)
     for k, c in enumerate(cycles):
+        if c.get("pcc") is None:
+            # a turn that does not reach `process_changing_cause` (blind, finalizer, held back, carried): what it left on the
+            # object is read off the next cycle's body / the final object (a blind turn purges the leftovers: /repo 423b86f)
+            after = cycles[k + 1]["body"] if k + 1 < n else f.final
+            if after is not None:
+                passes[k]["P"] = py_records(after, owned)
         if k + 1 < n:
             nxt = cycles[k + 1]
             passes[k]["base"] = "none" if nxt["cause"]["old_absent"] else ("diff" if nxt["cause"]["diff"] else "same")
